@@ -261,6 +261,42 @@ unsafe extern "C" fn take_tramp(cont: ObCont) -> i64 {
     objfam::emit("callee_exit", 0);
     r
 }
+/// the same window for the other by-value entries (ob_into: slot 3, ob_try: slot 4), whatever they return
+static ORIG_SLOT: [std::sync::atomic::AtomicUsize; 8] = {
+    const Z: std::sync::atomic::AtomicUsize = std::sync::atomic::AtomicUsize::new(0);
+    [Z; 8]
+};
+unsafe extern "C" fn into_tramp<R>(cont: ObCont) -> R {
+    let f: unsafe extern "C" fn(ObCont) -> R = std::mem::transmute(ORIG_SLOT[3].load(std::sync::atomic::Ordering::SeqCst));
+    IN_CALLEE.store(true, std::sync::atomic::Ordering::SeqCst);
+    let r = f(cont);
+    IN_CALLEE.store(false, std::sync::atomic::Ordering::SeqCst);
+    r
+}
+unsafe extern "C" fn try_tramp<R>(cont: ObCont, fail: bool) -> R {
+    let f: unsafe extern "C" fn(ObCont, bool) -> R = std::mem::transmute(ORIG_SLOT[4].load(std::sync::atomic::Ordering::SeqCst));
+    IN_CALLEE.store(true, std::sync::atomic::Ordering::SeqCst);
+    let r = f(cont, fail);
+    IN_CALLEE.store(false, std::sync::atomic::Ordering::SeqCst);
+    r
+}
+fn into_tramp_for<R>(_f: unsafe extern "C" fn(ObCont) -> R) -> usize {
+    into_tramp::<R> as *const () as usize
+}
+fn try_tramp_for<R>(_f: unsafe extern "C" fn(ObCont, bool) -> R) -> usize {
+    try_tramp::<R> as *const () as usize
+}
+impl HObArc {
+    /// copy the object's vtable (five entries: ob_peek, ob_id, ob_take, ob_into, ob_try), replace one slot, point the object at the copy
+    unsafe fn interpose(&mut self, slot: usize, tramp: usize) {
+        let words = &mut self.0 as *mut _ as *mut *const usize;
+        let vt = *words;
+        let copy: &'static mut [usize; 5] = ledger::untracked(|| Box::leak(Box::new([*vt, *vt.add(1), *vt.add(2), *vt.add(3), *vt.add(4)])));
+        ORIG_SLOT[slot].store(copy[slot], std::sync::atomic::Ordering::SeqCst);
+        copy[slot] = tramp;
+        *words = copy.as_ptr();
+    }
+}
 impl Caps for HObArc {
     fn id(&self) -> Option<i64> {
         Some(self.0.ob_id())
@@ -268,16 +304,30 @@ impl Caps for HObArc {
     fn call(&mut self, m: &str, a: i64) -> Option<i64> {
         ob_call(&self.0, m, a)
     }
-    ob_consume!();
+    fn take(self: Box<Self>) -> Result<i64, Box<dyn Caps>> {
+        Ok(self.0.ob_take())
+    }
+    fn into_child(mut self: Box<Self>) -> Result<Box<dyn Caps>, Box<dyn Caps>> {
+        unsafe {
+            let t = into_tramp_for(self.0.get_vtbl().ob_into());
+            self.interpose(3, t);
+        }
+        Ok(Box::new(HRa(self.0.ob_into())))
+    }
+    fn try_child(mut self: Box<Self>, fail: bool) -> Result<Result<Box<dyn Caps>, ()>, Box<dyn Caps>> {
+        unsafe {
+            let t = try_tramp_for(self.0.get_vtbl().ob_try());
+            self.interpose(4, t);
+        }
+        Ok(match self.0.ob_try(fail) {
+            Ok(c) => Ok(Box::new(HRa(c)) as Box<dyn Caps>),
+            Err(()) => Err(()),
+        })
+    }
     fn take_fine(mut self: Box<Self>) -> Result<i64, Box<dyn Caps>> {
         unsafe {
-            let words = &mut self.0 as *mut _ as *mut *const usize;
-            let vt = *words;
-            let copy: &'static mut [usize; 4] =
-                ledger::untracked(|| Box::leak(Box::new([*vt, *vt.add(1), *vt.add(2), *vt.add(3)])));
-            ORIG_TAKE.store(copy[2], std::sync::atomic::Ordering::SeqCst);
-            copy[2] = take_tramp as *const () as usize;
-            *words = copy.as_ptr();
+            ORIG_TAKE.store(*(*(&self.0 as *const _ as *const *const usize)).add(2), std::sync::atomic::Ordering::SeqCst);
+            self.interpose(2, take_tramp as *const () as usize);
         }
         Ok(self.0.ob_take())
     }
